@@ -373,9 +373,12 @@ def run_property(mod, tier, seed, replay=None):
             v['batch'] = b
     merged = merge(results)
     merged['extra']['batches'] = len(batches)
+    walls = sorted(((round(r.get('_wall', 0), 1), b.get('id', '?'))
+                    for b, r in zip(batches, results)), reverse=True)
+    merged['extra']['slowest_batches_s'] = [f'{i}:{w}' for w, i in walls[:4]]
     merged['extra']['warm_s'] = round(warm_s, 1)
     merged['extra']['source_stamp'] = stamp
-    if hasattr(mod, 'finalize'):
+    if hasattr(mod, 'finalize') and not replay:
         try:
             mod.finalize(merged, tier)
         except Exception:  # noqa
